@@ -163,7 +163,8 @@ def replay_top(c):
     from enspara.tpt import top_path
     bad = []
     srcs, snks = c["srcs"], c["snks"]
-    forms = [("list", srcs, snks), ("ndarray-reversed", np.array(srcs[::-1]), np.array(snks[::-1]))]
+    forms = [("list", srcs, snks), ("ndarray-reversed", np.array(srcs[::-1]), np.array(snks[::-1])),
+             ("tuple", tuple(srcs), tuple(snks))]
     for form, s, t in forms:
         W = np.array(c["W"], dtype=float)
         W0 = W.copy()
@@ -188,7 +189,7 @@ def replay_top(c):
 
 def _make(Wint, scale, form):
     A = np.array(Wint, dtype=float) / scale
-    if form == "f64":
+    if form in ("f64", "f64-tuple", "f64-rev"):
         return A
     if form == "f64-F":
         return np.asfortranarray(A)
@@ -216,8 +217,11 @@ def _one_run(Wint, scale, srcs, snks, cfgrun, form):
         with warnings.catch_warnings():
             warnings.simplefilter("ignore")
             with np.errstate(all="ignore"):
-                ps, fl = paths(srcs if form != "f64-F" else np.array(srcs),
-                               snks if form != "f64-F" else np.array(snks), A, **kw)
+                # the state sets as lists, integer arrays, tuples, or listed in decreasing order
+                sa, ta = ((np.array(srcs), np.array(snks)) if form == "f64-F" else
+                          (tuple(srcs), tuple(snks)) if form == "f64-tuple" else
+                          (np.array(srcs[::-1]), list(snks[::-1])) if form == "f64-rev" else (srcs, snks))
+                ps, fl = paths(sa, ta, A, **kw)
     except Exception as ex:
         rec["raised"] = "%s: %s" % (type(ex).__name__, ex)
         return rec
@@ -237,7 +241,8 @@ def record_case(job):
         if cfgrun[1] == NONE and cfgrun[2] == cfgrun[3] and not cfgrun[4]:
             # other containers / dtypes: an identical record is the same trace; a different
             # one is validated on its own
-            for form in job.get("forms", ()):
+            extra = ("f64-tuple", "f64-rev") if len(srcs) > 1 or len(snks) > 1 else ()
+            for form in tuple(job.get("forms", ())) + extra:
                 if form == "i64" and scale != 1:
                     continue
                 r = _one_run(Wint, scale, srcs, snks, cfgrun, form)
